@@ -325,7 +325,7 @@ def r3_extension_reports_rejection(repo=None):
     r = Rule("C05.R3", "the extension turns every non-zero library result into a Python exception")
     tu = cfront.ext(repo)
     n = 0
-    for fname in ("_py_rf_write_hdf5_rf_write", "_py_rf_write_hdf5_rf_block_write"):
+    for fname in (cfront.ext_fn(tu, "rf_write"), cfront.ext_fn(tu, "rf_block_write")):
         fn = tu.fn(fname)
         g = _cfg.build_c(fn)
         for c in fn.calls(("digital_rf_write_hdf5", "digital_rf_write_blocks_hdf5")):
@@ -363,12 +363,13 @@ def r3_extension_reports_rejection(repo=None):
                                 "success", line=t.line)
                     continue
             starts = [b for b, l in g.succ[t.id] if l == lab]
-            reach = g.reach(starts)
+            # on the failure branch the status variable is non-zero: copies of it are too (feasible paths only)
+            reach = clib.nonzero_reach(g, starts, [var] if var else [])
             seterr = [x.id for x in g.nodes if x.ast is not None and x.ast.calls(("PyErr_SetString", "PyErr_Format"))]
             rets = [x for x in g.nodes if x.kind == "return" and x.id in reach]
             good = rets and all(("NULL" in x.label or (x.ast.children and x.ast.children[0].intval() == 0)) for x in rets) \
                 and not any(x.ast is not None and x.ast.calls(("Py_BuildValue",)) for x in g.nodes if x.id in reach) \
-                and not any(x.id in g.reach(starts, avoid=seterr) for x in rets)
+                and not any(x.id in (g.reach(starts, avoid=seterr) & reach) for x in rets)
             if good:
                 r.ok(site, "non-zero result -> PyErr_SetString + return NULL on every path")
             else:
